@@ -54,12 +54,13 @@ struct CaseSpec
     uint8_t ver = 1;
     int junk = 0;          // input packets carry junk device/stream/sequence values
     int api = 0;           // 0 iterator-of-Packet, 1 single packet, 2 iterator-of-shared_ptr
+    int pre = 0;           // earlier encode call on the SAME encoder with the same context: 0 none, 1 [small data], 2 [small status], 3 [segmenting data]; other version
     std::vector<PSpec> b;
 };
 
 static std::string show(const CaseSpec& c)
 {
-    std::string s = fmt("mn=%zu;mx=%zu;dev=%x;str=%x;ver=%u;jk=%d;api=%d;b=", c.mn, c.mx, c.dev, c.str, c.ver, c.junk, c.api);
+    std::string s = fmt("mn=%zu;mx=%zu;dev=%x;str=%x;ver=%u;jk=%d;api=%d;pre=%d;b=", c.mn, c.mx, c.dev, c.str, c.ver, c.junk, c.api, c.pre);
     for (size_t i = 0; i < c.b.size(); ++i)
     {
         const PSpec& p = c.b[i];
@@ -80,6 +81,7 @@ static CaseSpec parseCase(const std::string& s)
     c.ver = (uint8_t) strtoul(m["ver"].c_str(), nullptr, 10);
     c.junk = atoi(m["jk"].c_str());
     c.api = atoi(m["api"].c_str());
+    c.pre = atoi(m["pre"].c_str());
     for (auto& ps : mc::split(m["b"], '|'))
     {
         auto f = mc::split(ps, ',');
@@ -250,7 +252,7 @@ static void oracleC07(W& w, const CaseSpec& c, const Built& b, const std::vector
         else if (!wk.tailZero)
             w.fail("padding-nonzero", fmt("frame %zu: bytes after offset %zu are not all zero", fi, wk.used));
         else if (f.size() != std::max(wk.used, c.mn))
-            w.fail("padding-longer-than-needed", fmt("frame %zu: %zu bytes used, min %zu, but frame has %zu bytes", fi, wk.used, c.mn, f.size()));
+            w.fail(f.size() > std::max(wk.used, c.mn) ? "padding-longer-than-needed" : "frame-shorter-than-needed", fmt("frame %zu: %zu bytes used, min %zu, but frame has %zu bytes", fi, wk.used, c.mn, f.size()));
         for (auto& m : wk.msgs)
         {
             if (pi >= b.eff.size())
@@ -487,6 +489,22 @@ static void judge(W& w, const std::string& prop, const CaseSpec& c)
     Encoder e;
     e.setDeviceId(c.dev);
     e.setStreamId(c.str);
+    if (c.pre)
+    {
+        // an earlier call with the same context on the same encoder: what it leaves behind must not matter
+        CaseSpec p0 = c;
+        p0.pre = 0;
+        p0.api = 0;
+        p0.ver = (uint8_t) (c.ver == 255 ? 1 : c.ver + 1);
+        PSpec ps;
+        ps.mt = c.pre == 2 ? 3 : 1;
+        ps.len = c.pre == 3 ? (uint32_t) (2 * (c.mx - 24) + 1) : 3;
+        ps.pat = 99;
+        p0.b = {ps};
+        Built pb = build(p0);
+        runEncode(e, p0, pb);
+        w.add(mc::C_TRANS, 1);
+    }
     std::vector<Bytes> frames = runEncode(e, c, b);
     w.add(mc::C_TRANS, 1);
     w.add(mc::C_TRACES, 1);
@@ -643,6 +661,12 @@ static void runTask(W& w, const std::string& prop, const Domain& d, const Task& 
             for (int i = 0; i < t.n; ++i)
                 c.b.push_back(gen(types[idx[i] % types.size()], L[idx[i] / types.size()], i));
             exec();
+            if (t.part == 'A' && (t.n <= 2 || d.thorough) && t.n <= 3)
+            {
+                for (c.pre = 1; c.pre <= 3; ++c.pre)
+                    exec();
+                c.pre = 0;
+            }
             int k = t.n - 1;
             while (k >= 1 && ++idx[k] == choices)
                 idx[k--] = 0;
@@ -794,7 +818,9 @@ struct EncOp
     char kind;     // 'D' setDeviceId, 'S' setStreamId, 'R' restart, 'E' encode
     int arg;
 };
-static const std::vector<EncOp> kOps = {{'D', 1}, {'D', 0x0203}, {'S', 1}, {'S', 7}, {'R', 0}, {'E', 0}, {'E', 1}, {'E', 2}, {'E', 3}, {'E', 4}, {'E', 5}};
+// E10 / E11 differ from E0 / E4 in the protocol version ONLY (same context, type and batch shape), so that
+// anything cached under a key that forgets the version collides
+static const std::vector<EncOp> kOps = {{'D', 1}, {'D', 0x0203}, {'S', 1}, {'S', 7}, {'R', 0}, {'E', 0}, {'E', 1}, {'E', 2}, {'E', 3}, {'E', 4}, {'E', 5}, {'E', 10}, {'E', 11}};
 
 // the (batch, context) pairs; 0..5 are the C09 alphabet, 6..9 additional finals of C10
 static CaseSpec encodeArg(int k)
@@ -811,6 +837,8 @@ static CaseSpec encodeArg(int k)
         case 6: c.mn = 0; c.mx = 40; c.b = {gen(1, 33, 0), gen(1, 3, 1), gen(1, 4, 2)}; break;   // starts with a segmenting packet
         case 7: c.mn = 0; c.mx = 100; c.b = {gen(3, 8, 0), gen(3, 9, 1)}; break;                  // status only
         case 8: c.mn = 0; c.mx = 100; c.b = {gen(1, 8, 0), gen(1, 9, 1)}; break;                  // data only
+        case 10: c.mn = 0; c.mx = 1500; c.ver = 2; c.b = {gen(1, 6, 0)}; break;       // E0 with another version
+        case 11: c.mn = 0; c.mx = 64; c.ver = 1; c.b = {gen(3, 11, 0)}; break;          // E4 with another version
         default: c.mn = 30; c.mx = 48; c.b = {gen(0xFF, 25, 0), gen(1, 24, 1), gen(1, 2, 2)}; break;
     }
     return c;
@@ -1051,10 +1079,12 @@ static void dfs10(W& w, const HistState& s, std::vector<int>& path, int target)
 {
     if ((int) path.size() == target)
     {
-        for (int fin = 0; fin < 11; ++fin)
+        for (int fin = 0; fin < 13; ++fin)
         {
-            int fa = fin;
-            if (fin == 10)
+            int fa = fin < 10 ? fin : fin - 1 + 1;
+            if (fin == 10 || fin == 11)
+                fa = fin;          // the version-only variants
+            if (fin == 12)
             {
                 // the same batch as the last encode of the history
                 fa = -1;
@@ -1116,7 +1146,8 @@ int main(int argc, char** argv)
     {
         Domain dom = makeDomain(prop, thorough);
         run.rule = "full cartesian product of boundary-centred payload lengths {1,2,u-1,u,u+1,2u-1,2u,2u+1,3u+1} (u=max-24) x message types x "
-                   "batch sizes x frame-size contexts on fresh real Encoder objects (plus typed prototypes, header-field sweeps, extremes); "
+                   "batch sizes x frame-size contexts on fresh real Encoder objects and on encoders that already made one call with the same context (small data / small status / "
+                   "segmenting batch, other version), plus typed prototypes, header-field sweeps, extremes; "
                    "distinct = distinct observed frame structures (frame sizes, messages per frame, slice lengths and segment flags)";
         run.replay_case = [prop](W& w, const std::string& cs) {
             CaseSpec c = parseCase(cs);
@@ -1158,7 +1189,7 @@ int main(int argc, char** argv)
     if (prop == "C09")
     {
         const int depth = thorough ? 5 : 4;
-        run.rule = "every history over the 11-op alphabet {setDeviceId x2, setStreamId x2, restart, encode x6 (batch,context) pairs} up to the "
+        run.rule = "every history over the 13-op alphabet {setDeviceId x2, setStreamId x2, restart, encode x8 (batch,context,version) triples, two of which differ from another one in the version only} up to the "
                    "stated depth as a tree of copied real Encoder objects, every prefix judged by the counter/identity model; distinct = distinct "
                    "(frame structure of the last call, last counter, identity) outcomes";
         run.extra.push_back({"depth", mc::Json::num(depth)});
@@ -1206,7 +1237,7 @@ int main(int argc, char** argv)
     if (prop == "C10")
     {
         const int depth = thorough ? 4 : 3;
-        run.rule = "for every history of depth <= d over the C09 alphabet and every final (batch,context) of a 10-element set plus 'the same batch "
+        run.rule = "for every history of depth <= d over the C09 alphabet and every final (batch,context,version) of a 12-element set plus 'the same batch "
                    "as the last call': frames of the used real Encoder vs frames of a fresh Encoder with the same ids, byte for byte modulo a "
                    "constant counter offset; distinct = distinct (used, fresh) frame-structure pairs";
         run.extra.push_back({"depth", mc::Json::num(depth)});
